@@ -391,9 +391,8 @@ def block_contraction(ctx):
     rolls = [x for x in walk(r) if is_ext_call(x, 'jax.numpy.transpose')]
     roll_t = None
     for x in rolls:
-      kw = dict(x.args[2])
-      if 'axes' in kw:
-        roll_t = kw['axes']
+      if len(x.args[1]) > 1:      # canonical form: transpose(a, axes)
+        roll_t = x.args[1][1]
     env['ROLL'] = roll_t if roll_t is not None else const(0)
     exp = spec_term(ev, src, env)
     ok = cmpr.same(r, exp)
